@@ -69,6 +69,13 @@ def run(P, rep, tier):
     rep.floor("C07.R2", 7)
     rep.floor("C07.R3", 3)
     rep.floor("C07.R4", 7)
+    # refinement against the pinned tree for every function the rules above looked at (rules/pinned.py)
+    import os as _os
+
+    if not _os.environ.get("MDSA_PINNED_GEN"):
+        from .pinned import refine
+
+        refine(P, rep, ctx, "C07")
 
 
 def key_kind(fi, e: ast.AST) -> str:
